@@ -2,7 +2,7 @@
 (* Trace specification for C15 / C16: recorded calls of ecdsa.numbertheory decided against the  *)
 (* definitions of NumTheory.tla (native integers) or, beyond 31 bits, against integer identities *)
 (* with untrusted witnesses multiplied out on byte sequences (Bytes.tla).                        *)
-EXTENDS NumTheory, Bytes, TLC, Json, IOUtils
+EXTENDS NTAlg, Bytes, Json, IOUtils
 
 Trace == JsonDeserialize(IOEnv.TRACE_FILE)
 VARIABLE i
@@ -18,6 +18,8 @@ Bad(e) ==
          {"sqrt-" \o ToString(a) : a \in {a \in 0..(p - 1) :
               LET o == e.outs[a + 1] IN
               IF IsResidue(a, p) THEN ~(o \in 0..(p - 1) /\ (o * o) % p = a) ELSE o # -1}}
+         \* DRIFT (note only): the root returned is not the one the transcribed algorithm (NTAlg.SqrtAlg) picks
+         \cup (IF \A a \in 0..(p - 1) : e.outs[a + 1] = SqrtAlg(a, p) THEN {} ELSE {"HELPER-sqrt-another-root-than-the-transcribed-algorithm"})
     [] e.op = "jacobi" ->       \* one odd n >= 3, a in lo..hi: outs
          {"jacobi-" \o ToString(a) : a \in {a \in e.lo..e.hi : e.outs[a - e.lo + 1] # JacobiDef(a, e.n)}}
     [] e.op = "isprime" ->      \* block lo..hi: the n for which is_prime(n) was True
@@ -54,6 +56,20 @@ Bad(e) ==
                 /\ \A j \in 1..(Len(l) - 1) : l[j][1] < l[j + 1][1]
                 /\ Eq(Prod(Len(l)), e.n)
              THEN {} ELSE {"big-factorization"}
+    \* ---- helpers beyond the listed properties (clause names start with HELPER: reported as notes) -------------
+    \* polynomial arithmetic in F_p[x]/(polymod) used by the p = 1 (mod 8) square root: coefficientwise equal modulo p
+    [] e.op \in {"poly-reduce", "poly-mul", "poly-exp"} ->
+         LET want == CASE e.op = "poly-reduce" -> PolyReduce(e.a, e.polymod, e.p)
+                       [] e.op = "poly-mul" -> PolyMul(e.a, e.b, e.polymod, e.p)
+                       [] e.op = "poly-exp" -> PolyExp(e.a, e.e, e.polymod, e.p)
+         IN  IF e.ok /\ Len(e.out) = Len(want) /\ \A k \in 1..Len(want) : e.out[k] % e.p = want[k] % e.p
+             THEN {} ELSE {"HELPER-" \o e.op}
+    [] e.op = "phi" -> IF e.ok /\ e.out = PhiDef(e.n) THEN {} ELSE {"HELPER-phi"}
+    [] e.op = "carmichael" -> IF e.ok /\ e.out = CarmichaelDef(e.n) THEN {} ELSE {"HELPER-carmichael"}
+    [] e.op = "order_mod" -> IF e.ok /\ e.out = OrderMod(e.x, e.m) THEN {} ELSE {"HELPER-order_mod"}
+    [] e.op = "lfrp" -> IF e.ok /\ e.out = LargestCoprimeFactor(e.a, e.b) THEN {} ELSE {"HELPER-largest_factor_relatively_prime"}
+    [] e.op = "kinda_order_mod" -> IF e.ok /\ e.out = OrderMod(e.x, LargestCoprimeFactor(e.m, e.x)) THEN {} ELSE {"HELPER-kinda_order_mod"}
+    [] e.op = "modular_exp" -> IF e.ok /\ e.out = PowMod(e.b, e.e, e.m) THEN {} ELSE {"HELPER-modular_exp"}
     [] e.op = "big-prime" ->    \* catalogue prime: is_prime must say True
          IF e.out THEN {} ELSE {"is_prime-rejects-a-prime"}
 
